@@ -127,6 +127,12 @@ Error ConstPool::add(const void* data, size_t size, Out<size_t> offset_out) noex
     return Error::kOk;
   }
 
+  // Allocate the node first - a failed allocation must leave the pool as it was (no gap consumed, no size change).
+  node = ConstPool::Tree::new_node_t(_arena, data, size, 0, false);
+  if (ASMJIT_UNLIKELY(!node)) {
+    return make_error(Error::kOutOfMemory);
+  }
+
   // Before incrementing the current offset try if there is a gap that can be used for the requested data.
   size_t offset = ~size_t(0);
   size_t gap_index = tree_index;
@@ -169,11 +175,7 @@ Error ConstPool::add(const void* data, size_t size, Out<size_t> offset_out) noex
   }
 
   // Add the initial node to the right index.
-  node = ConstPool::Tree::new_node_t(_arena, data, size, offset, false);
-  if (ASMJIT_UNLIKELY(!node)) {
-    return make_error(Error::kOutOfMemory);
-  }
-
+  node->_offset = uint32_t(offset);
   _tree[tree_index].insert(node);
   _alignment = Support::max<size_t>(_alignment, size);
 
@@ -200,7 +202,9 @@ Error ConstPool::add(const void* data, size_t size, Out<size_t> offset_out) noex
 
       node = ConstPool::Tree::new_node_t(_arena, data_ptr, smaller_size, offset + (i * smaller_size), true);
       if (ASMJIT_UNLIKELY(!node)) {
-        return make_error(Error::kOutOfMemory);
+        // The constant itself has been added - sharing its parts is optional (like a gap that cannot be recorded).
+        smaller_size = 0;
+        break;
       }
 
       _tree[tree_index].insert(node);
